@@ -415,6 +415,18 @@ func (s *state) visitDataRef(node *ast.DataRefNode) {
 
 	// Nullsafe access makes this complicated.
 	// FOO.BAR?.BAZ => (FOO.BAR == null ? null : FOO.BAR.BAZ)
+	// The whole conditional is parenthesized so that it stays one operand when
+	// it is emitted next to an operator (e.g. after a unary minus).
+	var nullsafe = false
+	for _, accessNode := range node.Access {
+		if isNullSafeAccess(accessNode) {
+			nullsafe = true
+		}
+	}
+	if nullsafe {
+		s.js("(")
+		defer s.js(")")
+	}
 	for _, accessNode := range node.Access {
 		switch node := accessNode.(type) {
 		case *ast.DataRefIndexNode:
@@ -435,6 +447,19 @@ func (s *state) visitDataRef(node *ast.DataRefNode) {
 		}
 	}
 	s.js(expr)
+}
+
+// isNullSafeAccess returns true if the data ref access node is a nullsafe access.
+func isNullSafeAccess(n ast.Node) bool {
+	switch node := n.(type) {
+	case *ast.DataRefIndexNode:
+		return node.NullSafe
+	case *ast.DataRefKeyNode:
+		return node.NullSafe
+	case *ast.DataRefExprNode:
+		return node.NullSafe
+	}
+	return false
 }
 
 func (s *state) visitCall(node *ast.CallNode) {
